@@ -101,10 +101,21 @@ def run(ctx):
     D.run_harness(ctx, binary, ["run", ctx.work, ctx.path("tlc_cases.ndjson"), ctx.path("obs.ndjson")])
     obs = D.read_ndjson(ctx.path("obs.ndjson"))
     verdicts = judge_all(ctx, obs)
+    by_step = step_obs(obs)
     malformed = [v for v in verdicts if str(v.get("sig", "")).startswith("malformed")]
     if malformed:
-        raise D.Inconclusive("judge found %d malformed record(s), e.g. %s" % (len(malformed), json.dumps(malformed[0])))
-    by_step = step_obs(obs)
+        # A malformed record is machinery (exit 2) - except when the same run has well-formed records in which the
+        # judge saw element objects shared between two places or two resources: a process-wide shared object is
+        # mutated by the behaviours that run concurrently, which makes OTHER records inconsistent. Those are set
+        # aside (never reported as violations); the well-formed `shared` verdicts carry the run.
+        shared = [v for v in verdicts if str(v.get("sig", "")).startswith("patch|shared|")]
+        if not shared:
+            raise D.Inconclusive("judge found %d malformed record(s), e.g. %s" % (len(malformed), json.dumps(malformed[0])))
+        D.log("  %d malformed record(s) set aside (objects shared across resources were observed in %d well-formed records)" % (len(malformed), len(shared)))
+        ctx.extra["malformed_set_aside"] = len(malformed)
+        gone = {v["id"].split("#")[0] for v in malformed}
+        verdicts = [v for v in verdicts if v["id"].split("#")[0] not in gone]
+        by_step = {i: o for i, o in by_step.items() if o["behaviour"] not in gone}
     D.check_complete(verdicts, list(by_step.values()), what="step")
     if not replay:
         corrupt_probe(ctx, obs)
